@@ -465,6 +465,7 @@ func runC15(r *simkit.Run) {
 	head := w.chain.Genesis
 	steps := c.Range(8, 30, "steps")
 	bigJumpDone := false
+	forkedWhileRolledBack := false
 	reorgWithAbandonedEvent := false
 	// the keyper marks identities decrypted once their keys are released (the real
 	// UpdateTimeBasedDecryptedFlags / UpdateEventBasedDecryptedFlags); a later reorg must remove
@@ -610,9 +611,33 @@ func runC15(r *simkit.Run) {
 					if err := deliver(b, b); err == nil {
 						break
 					}
+					// The step failed. If it got as far as the rollback, the stored position is now the
+					// rollback point with an unknown (empty) hash. The chain may switch once more right
+					// then, to a branch forking at most the assumed depth below THAT position; its first
+					// head above the stored position is position+1, as the statement requires.
+					if num2, hash2, okp := cw.position(); okp && len(hash2) == 0 && !forkedWhileRolledBack && uint64(num2) > cw.firstBlock()+1 && c.Chance(500, "fork-again-while-rolled-back") {
+						forkedWhileRolledBack = true
+						d2 := c.Range(1, int(min(uint64(10), uint64(num2)-cw.firstBlock())), "second-fork-depth")
+						fp2 := w.chain.Canonical(uint64(num2) - uint64(d2))
+						if fp2 != nil {
+							nb := fp2
+							for nb.Number < uint64(num2)+1 {
+								nb = cw.newBlock(nb, false)
+							}
+							b, head = nb, nb
+							reorgWithAbandonedEvent = true
+							r.Probe("fork-while-rolled-back")
+							r.Eventf("second fork at %d while the rolled-back position %d (no hash) is stored", fp2.Number, num2)
+						}
+					}
 					if try == 5 {
 						ok2 = false
 					}
+				}
+				if !ok2 {
+					// this head was never processed: no higher head may follow it (the next one would
+					// not be "one past the synced block" any more); the run ends with it
+					break
 				}
 			}
 			if !ok2 {
